@@ -277,6 +277,43 @@ def build(ctx, p):
         ctx.require(_cmp(got, ref), f"{m} changes under relabelling / insertion order")
 
 
+HASH_MEASURES = ["degree", "size", "duplicates", "maximal", "degree_matrix", "laplacian", "adjacency_matrix", "incidence_matrix",
+                 "intersection_profile", "edit_simpliciality", "connected_components", "clustering_coefficient", "net_degree", "net_size"]
+MEASURES["net_degree"] = node_dict(lambda H: H.degree())
+MEASURES["net_size"] = edge_dict(lambda H: H.size())
+
+
+@harness("C09.hash")
+def hashed(ctx, p):
+    """Real hashing: labels are forked exhaustively over a window that contains
+    negatives (hash(-1) == hash(-2)) and values whose set order differs from
+    insertion order; the network is built through the public API with the core
+    stubs removed."""
+    shape = _shape(p["shape"])
+    N, M, edges = shape
+    pool = [-2, -1, 0, 1, 8, 3]
+    nl = []
+    for i in range(N):
+        nl.append(pool.pop(ctx.choose(f"n{i}", len(pool))))
+    el = [5, 2, 9, 0][:M]
+    no, eo = p["order"]
+    m = p["measure"]
+    ctx.info["op"] = "real-hash:" + m
+    ctx.info["args"] = {"nodes": nl, "edges": el, "node_order": no, "edge_order": eo}
+    with stubs.uninstalled(), warnings.catch_warnings():
+        warnings.simplefilter("ignore")
+        H = xgi.Hypergraph()
+        H.add_nodes_from([nl[i] for i in no])
+        for j in eo:
+            H.add_edge([nl[i] for i in edges[j]], idx=el[j])
+        ref = reference(shape, m)
+        got = _run(m, H, nl, el)
+    if got[0] == "exc" and ref[0] != "exc":
+        ctx.require(False, f"{m} raises under relabelling although it is defined on the canonical labelling")
+    else:
+        ctx.require(_cmp(got, ref), f"{m} changes under relabelling / insertion order")
+
+
 def spec(tier, seed):
     import itertools
 
@@ -309,6 +346,14 @@ def spec(tier, seed):
                 units.append(("C09.relabel", {"shape": s, "measure": m, "order": o, "rev": bool(k % 2)}))
                 if m in BUILD_MEASURES and M > 0 and N + M <= 5:
                     units.append(("C09.build", {"shape": s, "measure": m, "order": o}))
+    hshapes = [s for s in shapes.shapes_H(3, 2) + shapes.shapes_H(2, 2) if all(len(e) > 0 for e in s[2])]
+    if tier != "quick":
+        hshapes += [s for s in shapes.shapes_H(3, 3) if all(len(e) > 0 for e in s[2])][::3]
+    for s in hshapes:
+        N, M = s[0], s[1]
+        for o in ((list(range(N)), list(range(M))), (list(reversed(range(N))), list(reversed(range(M))))):
+            for m in HASH_MEASURES:
+                units.append(("C09.hash", {"shape": s, "measure": m, "order": o}))
     return {
         "units": units,
         "caps": {"paths": 50000, "wall": 600},
